@@ -115,6 +115,7 @@ class Run:
         self.model = Model(budget)
         self.tick = 0
         self.held = {}  # key index -> strongly held value objects (harness side)
+        self.kept = {}  # key index -> a superseded value object the caller still holds
         self.mem = {}  # key index -> last memento object put
         self.log = []
 
@@ -156,7 +157,7 @@ class Run:
 
         return (tuple(order),
                 tuple(sorted((k, (e[0], e[1], rank[e[2]])) for k, e in ent.items())),
-                usage, tuple(refs), tuple(sorted(self.held)), object_state(self.cache),
+                usage, tuple(refs), tuple(sorted(self.held)), tuple(sorted(self.kept)), object_state(self.cache),
                 tuple(m.order),
                 tuple(sorted((k, (e[0], e[1], rank[e[2]], rank[e[3]])) for k, e in m.ent.items())),
                 tuple(sorted((k, rank[t]) for k, t in m.current.items())),
@@ -179,12 +180,14 @@ class Run:
                 cls = op[2]
                 base = (cls[1:] or "S") if cls.startswith("A") else cls
                 size = SIZES[self.budget][base]
+                # a caller that got an array from an earlier call keeps holding it after the call was memoized again
+                if ki in self.held:
+                    self.kept[ki] = self.held.pop(ki)
                 if cls.startswith("A"):
                     val = mk_arr(size, self.tick)
                     self.held[ki] = val
                 else:
                     val = mk_str(size, self.tick)
-                    self.held.pop(ki, None)
                 mem = storeh.mk_memento(sym, arg, val if not isinstance(val, np.ndarray) else "x", self.tick)
                 self.mem[ki] = (self.tick, mem)
                 c.put(mem, val, has_result=True)
@@ -252,6 +255,7 @@ class Run:
             m.forget(range(len(self.keys)))
         elif kind == "drop":
             self.held.clear()
+            self.kept.clear()
             gc.collect(0)
         else:
             raise HarnessError("unknown op %r" % (op,))
